@@ -59,6 +59,24 @@ CLAIMS = {
        "Tie: every public read-only method, both iterators (to exhaustion and partially), every handle operation and mutating call is executed with H1 recording; each trace is rebuilt as a program and judged flat by the Lean definition; a steered schedule parks a reader between acquisitions while the handle thread asks for the write lock; an unsteered stress run adds schedules the OS picks.",
   note="Assumed: RwLock's mutual exclusion and admission rule (std source), no memory-model effects, no panics under a guard (C05/C11). The whole iteration is not atomic by design; each next() is.",
   design="§3 C14"),
+ "C12": dict(
+  technique="Lean 4 proofs: (a) every catch-free program over the underlying reader fails with the injected error or returns the fault-free result, for every fault schedule (induction over the free monad); (b) the handle state machine under a fault in any phase either behaves as without it or reports the error and keeps the window invariant over the same content and position, for all scripts and fault sequences; + exhaustive fault enumeration on the implementation with lock-step of the handle traces",
+  text="Proof: CfbVerif.Props.C12 — C12_fail_or_same (all programs, all schedules), C12_handle_step / C12_handle_run (all read-only scripts under all fault choices: invariant kept, content unchanged; every delivered byte is true content by C06's refinement). "
+       "Tie: one run of the read-only workload per position of the underlying read/seek sequence (both versions, retries after each error) and pairs; the traced handle's operations incl. the failing phase are replayed on the Lean model comparing results and window fields.",
+  note="The Raw model is not re-run under faults: open/walk are covered by the generic program theorem plus the enumeration. Unit of failure = phase. Trusted base as C06.",
+  design="§3 C12"),
+ "C13": dict(
+  technique="Lean 4 proofs over the handle model with failing write-backs whose partial effect is any store that agrees with the old one outside the window: errors surface, the dirty marker survives, a successful flush leaves exactly the byte vector the handle stands for — for every such partial effect; + fault enumeration over the underlying write/seek/flush calls of a mutating workload with retry, durability read-back, panic and hang detection",
+  text="Proof: CfbVerif.Props.C13 — C13_error_surfaces, C13_dirty_kept, C13_partial_write_harmless, C13_flush_ok_durable (for every store related by Outside), C13_accepted_bytes. "
+       "Tie: a fault at each selected position of the write/seek/flush sequence (both versions); the failing call must return Err, nothing is swallowed, after every Ok flush a fresh handle reads all accepted bytes; handle traces are replayed on the Lean fault model.",
+  note="Partial: failures inside structural updates (set_len, mini/regular migration, directory/FAT growth) are only shown error-returning and panic/hang-free by enumeration; the file may be left half-updated (no crash consistency is claimed by the library).",
+  design="§3 C13"),
+ "C18": dict(
+  technique="Lean 4 proofs that the read_exact and write_all loops deliver exactly the requested bytes under any oracle of short counts and Interrupted results (and terminate given enough successful transfers), buffer-size independence from C06; + replay of every history on in-memory, real-file and transfer-splitting backends, all buffer sizes, both versions, with byte comparison of the files",
+  text="Proof: CfbVerif.Props.C18 — C18_read_exact_chunking, C18_read_exact_progress, C18_write_all_chunking, C18_bufsize. "
+       "Tie: each history runs in memory (lock-step with the Lean model) and again: second run, std::fs::File, 1-byte / random-short / Interrupted backends (results, directory tables and files byte-identical), five max_buffer_size values and the other version (results identical).",
+  note="Partial by nature: OS file semantics are outside the model (one real-file run). Determinism of the models is by construction; of the implementation by the second run.",
+  design="§3 C18"),
 }
 
 def main():
